@@ -341,13 +341,15 @@ class Matrix(Qube):
                              % type(self).__name__)
 
         # Check determinant if necessary
+        values = self._values_
         if not nozeros:
-            det = np.linalg.det(self._values_)
+            det = np.linalg.det(values)
 
             # Mask out un-invertible matrices and replace with identify matrices
             mask = (det == 0.)
             if np.any(mask):
-                self._values_[mask] = np.diag(np.ones(self._numer_[0]))
+                values = values.copy()      # never modify the operand's array
+                values[mask] = np.diag(np.ones(self._numer_[0]))
                 new_mask = Qube.or_(self._mask_, mask)
             else:
                 new_mask = self._mask_
@@ -356,7 +358,7 @@ class Matrix(Qube):
         with warnings.catch_warnings():
             warnings.filterwarnings('error')
             try:
-                new_values = np.linalg.inv(self._values_)
+                new_values = np.linalg.inv(values)
             except RuntimeWarning:
                 raise ValueError('%s.inverse() input has determinant == 0'
                                  % type(self).__name__)
